@@ -783,8 +783,11 @@ def c11_r6(ctx, f):
                     e = sq.canon_rv(st["rv"], (b["id"], i), 0, None)
                     if K(e[3]) is not None and e[2][0] == "phi" and sq.locals[e[2][1]]["ty"] == "u32":
                         adds.add(K(e[3]))
-        ctx.check(rid, adds == {3}, sq.path + "/block-score", where_fn(sq), sq.path, "2x2 block penalty", "a uniform 2x2 block does not score 3",
-                  expected=3, found=sorted(adds), sample="square_score += 3")
+        if not adds:
+            ctx.abstain(rid, "no `accumulator + constant` in matrix_score_squares: the block penalty is written in a shape this rule does not read", where_fn(sq))
+        else:
+            ctx.check(rid, adds == {3}, sq.path + "/block-score", where_fn(sq), sq.path, "2x2 block penalty", "a uniform 2x2 block does not score 3",
+                      expected=3, found=sorted(adds), sample="square_score += 3")
         if 0b1111 in consts and 0 in consts:
             ctx.ok(rid, "buffer == 0b1111 || buffer == 0")
         else:
@@ -878,12 +881,17 @@ def c10_r1(ctx, f, evaluated=None):
     rid = "C10.R1"
     ctx.rule(rid, "every explicit panic site reachable from build is accounted for by a discharging precondition")
     fns, sites = panic_inventory(ctx, f, ["qr::QRBuilder::build"], "build")
+    import re as _re
+
+    def owner(path):
+        # a panic inside a closure belongs to the function that holds the closure
+        return _re.sub(r"(::\{closure#\d+\})+$", "", path)
     seen = {}
     for s in sites:
         key = (s["fn"], s["callee"].split("::")[-1])
         seen[key] = seen.get(key, 0) + 1
     for key, n in sorted(seen.items()):
-        acc = ACCOUNTED.get(key)
+        acc = ACCOUNTED.get(key) or ACCOUNTED.get((owner(key[0]), key[1]))
         ok = acc is not None and n <= acc[0]
         if not ok and evaluated:
             by = [r for pre, r in evaluated.items() if key[0].startswith(pre)]
